@@ -47,6 +47,10 @@ class EventTypeParent(OntologyElement):
     def __str__(self):
         return f"{self._child_event_type.get_name()}=>{self._attr['event-type']}"
 
+    def _set_event_type(self, event_type):
+        self._child_event_type = event_type
+        return self
+
     def _child_modified_callback(self):
         """Callback for change tracking"""
         self._child_event_type._child_modified_callback()
@@ -351,7 +355,6 @@ class EventTypeParent(OntologyElement):
             # The new definition is indeed newer. Update self.
             self.set_parent_description(parent.get_parent_description())
             self.set_siblings_description(parent.get_siblings_description())
-            self._child_event_type = parent._child_event_type
 
         return self
 
